@@ -41,6 +41,9 @@ type Term struct {
 	OfInt  *Term      // strings produced by integer formatting: the formatted integer (KInt)
 	OfBV   *Term      // ... and the bit-vector it was formatted from
 	OfBVS  bool       // signedness of OfBV
+	EscOf   *Term       // URL-escaped strings: the original string
+	EscKind string      // "path" | "query"
+	QueryOf interface{} // encoded query strings: the url.Values they encode (*Map)
 	FromI  *Term      // floats produced exactly from a (<= 32 bit) integer: that integer (KInt)
 	L      *lin       // KInt: linear normal form
 	text   string
@@ -485,6 +488,13 @@ func Eq(a, b *Term) *Term {
 			return Eq(b.Args[0], mkStr(""))
 		}
 	case KStr:
+		// escaping never turns a non-empty string into an empty one or vice versa
+		if a.EscOf != nil && b.Const && b.SVal == "" {
+			return Eq(a.EscOf, b)
+		}
+		if b.EscOf != nil && a.Const && a.SVal == "" {
+			return Eq(b.EscOf, a)
+		}
 		// cheap refutation by length bounds
 		if a.Const && b.MaxLen >= 0 && len(a.SVal) > b.MaxLen {
 			return tFalse
@@ -1177,6 +1187,32 @@ func strReplace(s, old, nw *Term) *Term {
 	if s.Const && old.Const && nw.Const {
 		return mkStr(strings.Replace(s.SVal, old.SVal, nw.SVal, 1))
 	}
+	if old.Const && len(old.SVal) > 0 {
+		// structural: the first occurrence lies inside a constant part and no earlier
+		// symbolic part can contribute to a match
+		ps := partsOf(s)
+		for k, p := range ps {
+			if p.Const {
+				if i := strings.Index(p.SVal, old.SVal); i >= 0 {
+					out := append([]*Term{}, ps[:k]...)
+					out = append(out, mkStr(p.SVal[:i]), nw, mkStr(p.SVal[i+len(old.SVal):]))
+					out = append(out, ps[k+1:]...)
+					return concatPartsKeep(out)
+				}
+				continue
+			}
+			// a symbolic part: safe to skip only if it cannot contain any byte of old
+			skip := true
+			for j := 0; j < len(old.SVal); j++ {
+				if mayContain(p, old.SVal[j]) {
+					skip = false
+				}
+			}
+			if !skip {
+				break
+			}
+		}
+	}
 	t := app("str.replace", KStr, 0, s, old, nw)
 	if s.MaxLen >= 0 && nw.MaxLen >= 0 {
 		t.MaxLen = s.MaxLen + nw.MaxLen
@@ -1457,8 +1493,10 @@ func mayContain(s *Term, c byte) bool {
 	switch {
 	case s.Const:
 		return strings.IndexByte(s.SVal, c) >= 0
+	case s.Alpha != nil:
+		return s.Alpha[c]
 	case s.Op == "var":
-		return s.Alpha == nil || s.Alpha[c]
+		return true
 	case s.Op == "str.++":
 		for _, a := range s.Args {
 			if mayContain(a, c) {
@@ -1672,4 +1710,27 @@ func canSpell(t *Term, c string) bool {
 		}
 	}
 	return true
+}
+
+// concatPartsKeep concatenates parts without merging a tagged part (escape/format
+// tags) into a neighbour: empty constants are dropped, tags survive as own parts.
+func concatPartsKeep(ps []*Term) *Term {
+	var keep []*Term
+	for _, p := range ps {
+		if p.Const && p.SVal == "" {
+			continue
+		}
+		keep = append(keep, p)
+	}
+	if len(keep) == 0 {
+		return mkStr("")
+	}
+	if len(keep) == 1 {
+		return keep[0]
+	}
+	r := keep[0]
+	for _, p := range keep[1:] {
+		r = strConcat(r, p)
+	}
+	return r
 }
